@@ -13,7 +13,7 @@ FUNCTIONS = ["FlodymArray.sum_to", "FlodymArray.sum_over", "FlodymArray.sum_valu
              "FlodymArray.get_shares_over", "FlodymArray.cumsum"]
 ASSUMPTIONS = ["shares: the total over the given dimensions is non-zero (the property's own guard)"]
 OUTSIDE = ["more than 4 dimensions", "lengths above 3", "IEEE rounding"]
-VARIANTS = 'DimensionSet arguments (own and foreign); shares after an in-place write; foreign Dimension objects'
+VARIANTS = 'DimensionSet arguments (own and foreign); shares after an in-place write; foreign Dimension objects; cumsum over numeric items out of order'
 BOUNDS = {
     "quick": dict(universe="abc", lengths=[1, 2, 3], array_dims="every ordered subset", kept_summed_added="every subset in every order",
                   naming="letters, names, Dimension objects, mixed"),
@@ -33,7 +33,10 @@ def _lens_for(letters, tier):
         pats = list(length_patterns(letters, [1, 2, 3]))
         return [p for p in pats if int(np.prod(list(p.values()) or [1])) <= 12]
     pats = list(length_patterns(letters, [1, 2, 3]))
-    return [p for p in pats if int(np.prod(list(p.values()) or [1])) <= 36 and (len(letters) < 4 or sorted(p.values()) in ([1, 2, 2, 3], [2, 2, 2, 2], [1, 2, 3, 3], [2, 2, 2, 3]))]
+    # (4-d arrays: six fixed length assignments -- every multiset of lengths once or twice, a one-item dimension at either end
+    #  and inside; all 29 assignments made the thorough tier run for more than an hour)
+    four = ((2, 2, 2, 2), (1, 2, 3, 2), (2, 3, 2, 1), (3, 2, 1, 2), (2, 2, 3, 2), (3, 1, 2, 3))
+    return [p for p in pats if int(np.prod(list(p.values()) or [1])) <= 36 and (len(letters) < 4 or tuple(p[l] for l in sorted(p)) in four)]
 
 
 def configs(tier, seed):
